@@ -62,6 +62,15 @@ def mode_flag(mode, m):
     return {'e': False, 'p': True, 'x': m % 2 == 1}[mode]
 
 
+def spec_flag(mode, spec):
+    """the future flag of the CODE OBJECT of a function: a re-homed sibling keeps the
+    flag of the module its code was compiled in, a template that of the template file"""
+    return mode_flag(mode, spec.get('flagmod', spec['mod']))
+
+
+TPL_MOD = 5        # pseudo module index of the template file (flag only; odd: postponed in mode x)
+
+
 # ---------------------------------------------------------------- worlds
 def fn_source(spec, modalias):
     parts = []
@@ -80,7 +89,7 @@ def fn_source(spec, modalias):
         prev = k
     if prev == 'PO':
         parts.append('/')
-    head = 'def f%d(%s)' % (spec['fid'], ', '.join(parts))
+    head = 'def %s(%s)' % (spec.get('defname') or 'f%d' % spec['fid'], ', '.join(parts))
     if spec['ret'] is not None:
         head += ' -> ' + SPELL[spec['ret']]
     call = spec.get('call')
@@ -107,6 +116,15 @@ class World(object):
         self.fid_of = {}
         self.keep = []
         self.modnames = []
+        self.seen = []           # fids in the order their signature was first retrieved
+        self.sibgroup = {}       # fid -> key of the group of functions sharing one code object
+        for f in funcs:
+            sib = f.get('sib')
+            if sib:
+                key = ('tpl', sib['tpl']) if sib['kind'] == 'exec' else ('of', sib['of'])
+                self.sibgroup[f['fid']] = key
+                if sib['kind'] == 'rehome':
+                    self.sibgroup[sib['of']] = key
         _WORLDS.append(self)
         sys.path.insert(0, self.dir)
         vals = self.uniq + '_vals'
@@ -126,7 +144,8 @@ class World(object):
     def _build(self, mode):
         bymod = {}
         for spec in self.funcs.values():
-            bymod.setdefault(spec['mod'], []).append(spec)
+            if not spec.get('sib'):
+                bymod.setdefault(spec['mod'], []).append(spec)
         names = {m: '%s_%s_m%d' % (self.uniq, mode, m) for m in range(NMOD)}
         alias = {m: 'cm%d' % m for m in range(NMOD)}
         for m in sorted(bymod):
@@ -151,6 +170,74 @@ class World(object):
                 fn = getattr(mod, 'f%d' % spec['fid'])
                 self.objs[mode][spec['fid']] = fn
                 self.register(fn, spec['fid'])
+        self._build_siblings(mode, names)
+
+    def _namespace(self, m, name):
+        ns = {'__name__': name}
+        for s in range(len(SPELL)):
+            ns[SPELL[s]] = self.obj[self.bindings[m][s]]
+        return ns
+
+    def _build_siblings(self, mode, names):
+        """functions that SHARE ONE CODE OBJECT under different globals:
+        'exec'   one template file compiled once, the code object executed in one
+                 namespace per binding table;
+        'rehome' types.FunctionType(f.__code__, <dict of another module>) (the eager
+                 twin gets the objects the spellings denote in the new globals as
+                 __annotations__, as if its def statement had run there)."""
+        sibs = [sp for sp in self.funcs.values() if sp.get('sib')]
+        tpls = {}
+        for sp in sibs:
+            if sp['sib']['kind'] == 'exec':
+                tpls.setdefault(sp['sib']['tpl'], sp)
+        if tpls:
+            src = ['from __future__ import annotations'] if mode_flag(mode, TPL_MOD) else []
+            src.append('')
+            for tid in sorted(tpls):
+                src.append(fn_source(tpls[tid], {}))
+            path = os.path.join(self.dir, '%s_%s_tpl.py' % (self.uniq, mode))
+            with open(path, 'w') as f:
+                f.write('\n'.join(src))
+            code = compile('\n'.join(src), path, 'exec', dont_inherit=True)     # compiled ONCE
+            spaces = {}
+            for sp in sibs:
+                if sp['sib']['kind'] != 'exec':
+                    continue
+                m = sp['mod']
+                if m not in spaces:
+                    spaces[m] = self._namespace(m, '%s_%s_tplns%d' % (self.uniq, mode, m))
+                    exec(code, spaces[m])                                         # executed per namespace
+                fn = spaces[m][sp['defname']]
+                self.objs[mode][sp['fid']] = fn
+                self.register(fn, sp['fid'])
+        for sp in sibs:
+            if sp['sib']['kind'] != 'rehome':
+                continue
+            f = self.objs[mode][sp['sib']['of']]
+            target = sys.modules[names[sp['mod']]] if names[sp['mod']] in sys.modules else None
+            glob = target.__dict__ if target is not None else self._namespace(sp['mod'], 'rehome')
+            g = types.FunctionType(f.__code__, glob, f.__name__, f.__defaults__, f.__closure__)
+            g.__kwdefaults__ = dict(f.__kwdefaults__) if f.__kwdefaults__ else None
+            if spec_flag(mode, sp):
+                g.__annotations__ = dict(f.__annotations__)
+            else:
+                ann = {name_of(nm): self.obj[self.bindings[sp['mod']][s]] for nm, k, de, s in sp['params'] if s is not None}
+                if sp['ret'] is not None:
+                    ann['return'] = self.obj[self.bindings[sp['mod']][sp['ret']]]
+                g.__annotations__ = ann
+            g.__module__ = glob.get('__name__')
+            self.objs[mode][sp['fid']] = g
+            self.register(g, sp['fid'])
+
+    def note(self, fid):
+        if fid not in self.seen:
+            self.seen.append(fid)
+
+    def history(self, fids):
+        """siblings (same code object) of the given functions whose signature was
+        retrieved earlier in this process, in retrieval order"""
+        keys = {self.sibgroup[f] for f in fids if f in self.sibgroup}
+        return [f for f in self.seen if self.sibgroup.get(f) in keys]
 
     def register(self, obj, fid):
         self.keep.append(obj)
@@ -181,6 +268,9 @@ class World(object):
             c = self.funcs[f].get('call')
             if c:
                 need.add(c['callee'])
+            sib = self.funcs[f].get('sib')
+            if sib and sib['kind'] == 'rehome':
+                need.add(sib['of'])
         return {'bindings': self.bindings, 'funcs': [self.funcs[f] for f in sorted(need)]}
 
 
@@ -201,7 +291,7 @@ def _annotate_spec(rng, ps, density):
     return out
 
 
-def gen_world(rng, nfam=14, nrand=10, ninner=10, nwrap=24):
+def gen_world(rng, nfam=14, nrand=10, ninner=10, nwrap=24, ntpl=10, nrehome=12):
     bindings = [{s: rng.randint(1, NOBJ) for s in range(len(SPELL))} for _ in range(NMOD)]
     # two spellings of one object in module 0; one spelling, different objects in modules 0 / 1
     bindings[0][2] = bindings[0][0]
@@ -230,6 +320,18 @@ def gen_world(rng, nfam=14, nrand=10, ninner=10, nwrap=24):
         for m in range(NBASE):
             add(m, random_sig(rng, 'efgh', 3), 'C')
     plain = list(funcs)
+    # functions sharing one code object under different globals
+    for tid in range(ntpl):
+        base = _annotate_spec(rng, random_sig(rng, 'abcd', 4), 0.8)
+        r = rng.randrange(len(SPELL)) if rng.random() < 0.7 else None
+        for m in rng.sample(range(NBASE), rng.choice([2, 3])):
+            funcs.append({'fid': next(fid), 'mod': m, 'flagmod': TPL_MOD, 'params': [list(p) for p in base], 'ret': r,
+                          'group': 'S', 'call': None, 'defname': 't%d' % tid, 'sib': {'kind': 'exec', 'tpl': tid}})
+    for orig in rng.sample(plain, min(nrehome, len(plain))):
+        m2 = rng.choice([m for m in range(NBASE) if m != orig['mod']])
+        funcs.append({'fid': next(fid), 'mod': m2, 'flagmod': orig['mod'], 'params': [list(p) for p in orig['params']],
+                      'ret': orig['ret'], 'group': 'S', 'call': None, 'defname': 'f%d' % orig['fid'],
+                      'sib': {'kind': 'rehome', 'of': orig['fid']}})
     for _ in range(nwrap):
         m = rng.choice([3, 4])
         outer = [p for p in random_sig(rng, 'xyz', 2, star_names=(('args', 'kwargs'),)) if p[1] not in ('VP', 'VK')]
@@ -239,7 +341,7 @@ def gen_world(rng, nfam=14, nrand=10, ninner=10, nwrap=24):
             outer = outer[:npos] + [(id_of_name('args'), 'VP', None, None, ('E',))] + outer[npos:]
         if vk:
             outer = outer + [(id_of_name('kwargs'), 'VK', None, None, ('E',))]
-        callee = rng.choice(plain)
+        callee = rng.choice(plain)      # (never a sibling: wrappers import real modules)
         kwable = [p[0] for p in callee['params'] if p[1] in ('PK', 'KO')]
         kw = rng.sample(kwable, 1) if kwable and rng.random() < 0.3 else []
         fva = 'args' if va and (not vk or rng.random() < 0.9) else None
@@ -272,8 +374,51 @@ def gen_cases(rng, world, n):
             ns.append(id_of_name('z'))
         return ns
 
+    sibsets = {}
+    for fid_, key in world.sibgroup.items():
+        sibsets.setdefault(key, []).append(fid_)
+    sibsets = [sorted(v) for k_, v in sorted(sibsets.items()) if len(v) >= 2]
+
+    def sibling_case():
+        """one code object, several globals: retrieve a sibling first ('prime'),
+        then observe / transform / combine another one; both orders occur"""
+        grp = rng.choice(sibsets)
+        a, b_ = rng.sample(grp, 2)
+        f = world.funcs[b_]
+        k2 = rng.random()
+        if k2 < 0.25:
+            return {'op': rng.choice(['sig', 'ssig']), 'f': [b_], 'prime': [a]}
+        if k2 < 0.45:
+            return {'op': 'merge', 'f': [a, b_] + ([rng.choice(grp)] if rng.random() < 0.2 else [])}
+        if k2 < 0.55:
+            ns = kwnames(f)
+            return {'op': 'mask', 'f': [b_], 'prime': [a], 'n': rng.randint(0, 2),
+                    'names': rng.sample(ns, rng.randint(0, min(1, len(ns)))), 'flags': [False] * 4}
+        if k2 < 0.65:
+            ns = kwnames(f)
+            kw = rng.sample(ns, rng.randint(0, min(1, len(ns))))
+            return {'op': 'partial', 'f': [b_], 'prime': [a], 'n': rng.randint(0, 1),
+                    'kw': [[x, 5 + j] for j, x in enumerate(kw)]}
+        if k2 < 0.75:
+            pks = [p[0] for p in f['params'] if p[1] == 'PK']
+            kwos = [x for x in pks if rng.random() < 0.5]
+            if kwos:
+                return {'op': 'kwo', 'f': [b_], 'prime': [a], 'posos': [], 'kwos': kwos}
+            return {'op': 'sig', 'f': [b_], 'prime': [a]}
+        if k2 < 0.88:
+            i = rng.choice(groups['C'])
+            return {'op': 'forwards', 'f': [b_, i['fid']], 'prime': [a], 'n': 0, 'names': [],
+                    'ha': False, 'hk': False, 'uva': True, 'uvk': True, 'partial': False}
+        ns = [p[0] for p in f['params']]
+        anns = [[x, rng.randint(1, NOBJ)] for x in rng.sample(ns, rng.randint(0, min(1, len(ns))))]
+        return {'op': 'annot', 'f': [b_], 'prime': [a], 'anns': anns,
+                'retv': rng.randint(1, NOBJ) if not anns else None}
+
     for _ in range(n):
         k = rng.random()
+        if sibsets and rng.random() < 0.12:
+            cases.append(sibling_case())
+            continue
         if k < 0.30:
             cases.append({'op': 'merge', 'f': related(rng.choice([2, 2, 2, 3]))})
         elif k < 0.42:
@@ -337,7 +482,12 @@ def impl_call(world, case, mode):
     op = case['op']
 
     def sg(fid):
+        world.note(fid)
         return PS.signature(F[fid])
+    for f in case.get('prime', ()):
+        sg(f)                      # retrieved first; its result is not used
+    for f in fs:
+        world.note(f)
     if op == 'sig':
         return sg(fs[0])
     if op == 'ssig':
@@ -502,14 +652,14 @@ def c_b(x):
 def raw_of(world, spec, sp, mode):
     if sp is None:
         return None
-    return SPELL_BASE + sp if mode_flag(mode, spec['mod']) else world.bindings[spec['mod']][sp]
+    return SPELL_BASE + sp if spec_flag(mode, spec) else world.bindings[spec['mod']][sp]
 
 
 def sig_term(world, fid, mode):
     spec = world.funcs[fid]
     ps = '; '.join('(%d, %s, %s, %s)' % (nm, k, c_opt(de), c_opt(raw_of(world, spec, sp, mode)))
                    for nm, k, de, sp in spec['params'])
-    return '(upgrade_sig (Some %s) %d [%s] %s)' % (c_b(mode_flag(mode, spec['mod'])), fid, ps,
+    return '(upgrade_sig (Some %s) %d [%s] %s)' % (c_b(spec_flag(mode, spec)), fid, ps,
                                                     c_opt(raw_of(world, spec, spec['ret'], mode)))
 
 
@@ -651,7 +801,7 @@ def inputs_of(world, case):
                     p[2], p[3], p[4] = None, given[p[0]], True
             if case['retv'] is not None:
                 r = case['retv']
-        ins.append({'fid': fid, 'mod': spec['mod'], 'params': ps, 'ret': r})
+        ins.append({'fid': fid, 'mod': spec['mod'], 'flagmod': spec.get('flagmod', spec['mod']), 'params': ps, 'ret': r})
     return ins
 
 
@@ -763,7 +913,7 @@ def raw_class_pair(world, case, mode, names=None):
     ins = inputs_of(world, case)
 
     def raw(i, p):
-        if p[4] or not mode_flag(mode, i['mod']):
+        if p[4] or not mode_flag(mode, i['flagmod']):
             return ('o', p[3])
         return ('s', p[2])
     for a, b_ in itertools.combinations(ins, 2):
@@ -783,14 +933,23 @@ def raw_class_pair(world, case, mode, names=None):
 
 def show_case(world, case):
     def src(fid):
-        return fn_source(world.funcs[fid], {m: 'cm%d' % m for m in range(NMOD)}).split(':\n')[0] + \
-            '  [module %d: %s]' % (world.funcs[fid]['mod'], ', '.join(
-                '%s=v%d' % (SPELL[s], o) for s, o in sorted(world.bindings[world.funcs[fid]['mod']].items())))
-    extra = {k: v for k, v in case.items() if k not in ('f', 'op')}
+        sp = world.funcs[fid]
+        sib = ''
+        if sp.get('sib'):
+            sib = ', same code object as the other %s' % sp['defname'] if sp['sib']['kind'] == 'exec' else \
+                ', FunctionType(f%d.__code__, globals of module %d)' % (sp['sib']['of'], sp['mod'])
+        return 'f%d = ' % fid + fn_source(sp, {m: 'cm%d' % m for m in range(NMOD)}).split(':\n')[0] + \
+            '  [globals %d: %s%s]' % (sp['mod'], ', '.join(
+                '%s=v%d' % (SPELL[s], o) for s, o in sorted(world.bindings[sp['mod']].items())), sib)
+    extra = {k: v for k, v in case.items() if k not in ('f', 'op', 'prime')}
     fids = list(case['f'])
     if case['op'] == 'auto':
         fids.append(world.funcs[fids[0]]['call']['callee'])
-    return '%s %s over %s' % (case['op'], extra or '', ' ; '.join(src(f) for f in fids))
+    first = ''
+    if case.get('prime'):
+        first = ' after first retrieving signature(%s)' % ' ; '.join(
+            src(f) if f not in fids else 'f%d' % f for f in case['prime'])
+    return '%s %s over %s%s' % (case['op'], extra or '', ' ; '.join(src(f) for f in fids), first)
 
 
 # ---------------------------------------------------------------- examination
@@ -798,7 +957,10 @@ def examine(world, cases, rep=None):
     """-> (violations [(key, what, case)], corr breaks [(case, mode, model, impl)], stats)"""
     answers = []
     items = []
+    rcases = []      # the case as written to a replay file: with the retrieval history that matters
     for c in cases:
+        hist = world.history(all_fids(world, c))
+        rcases.append(dict(c, prime=hist + [f for f in c.get('prime', ()) if f not in hist]) if hist else c)
         row = {}
         for m in MODES:
             row[m] = run_impl(world, c, m)
@@ -817,7 +979,7 @@ def examine(world, cases, rep=None):
             if not agree[m]:
                 breaks.append((c, m, dis[idx], row[m]))
             for key, what in oracle(world, c, m, row[m], alrc.get(ci, False)):
-                viol.append((key, '[mode %s] %s -> %s: %s' % (m, show_case(world, c), row[m].get('text'), what), c))
+                viol.append((key, '[mode %s] %s -> %s: %s' % (m, show_case(world, rcases[ci]), row[m].get('text'), what), rcases[ci]))
         stats['ok' if row['e']['ok'] else 'err'] += 1
         if row['e']['ok']:
             stats['surviving_annotations'] += sum(1 for x in row['e']['svs'] if x is not None)
@@ -829,12 +991,12 @@ def examine(world, cases, rep=None):
             only_params = oe[0] == 'ok' and om[0] == 'ok' and oe[2] == om[2]
             pair = raw_class_pair(world, c, m, diff_names(oe, om)) if only_params else None
             what = '%s: evaluated() on the %s twins gives %s, on the eager twins %s' % (
-                show_case(world, c), {'p': 'postponed', 'x': 'mixed eager/postponed'}[m],
+                show_case(world, rcases[ci]), {'p': 'postponed', 'x': 'mixed eager/postponed'}[m],
                 row[m].get('etext', row[m].get('err')), row['e'].get('etext', row['e'].get('err')))
             if pair is not None and agree[m] and agree['e']:
-                viol.append((KNOWN_KEY, what + '  (raw equality differs from value equality on %s)' % pair, c))
+                viol.append((KNOWN_KEY, what + '  (raw equality differs from value equality on %s)' % pair, rcases[ci]))
             else:
-                viol.append(('C11:twin', what, c))
+                viol.append(('C11:twin', what, rcases[ci]))
     return viol, breaks, stats
 
 
@@ -895,7 +1057,7 @@ def all_fids(world, c):
     fids = list(c['f'])
     if c['op'] == 'auto':
         fids.append(world.funcs[fids[0]]['call']['callee'])
-    return fids
+    return fids + [f for f in c.get('prime', ()) if f not in fids]
 
 
 # ---------------------------------------------------------------- replay
